@@ -33,7 +33,7 @@ pub const SPEC: PropSpec = PropSpec {
 pub fn run_case(rng: &mut crate::prng::Rng, rep: &mut Report) {
     let timeout = *rng.pick(&[5000u64, 5000, 15_000]);
     let sc = ConfigSnapshot { mode: if rng.chance(1, 2) { SchedulingMode::Classic } else { SchedulingMode::Enhanced }, conn_timeout_ms: timeout, ..ConfigSnapshot::default() };
-    let opts = StreamOpts { n_links: 1 + rng.usize_below(4), cfg: sc, ticks: 12_000, probing: rng.chance(1, 2), faults: if rng.chance(1, 2) { Faults::Heavy } else { Faults::Paths }, retransmit_pct: 2, control_pct: 2, critical_windows: false, big_jumps: false, initial_windows: None, loss_permille: 5, stall_min_in_flight_small: false, echo_fuzz: true, rate_pct: 10 };
+    let opts = StreamOpts { n_links: 1 + rng.usize_below(4), cfg: sc, ticks: 12_000, probing: rng.chance(1, 2), faults: if rng.chance(1, 2) { Faults::Heavy } else { Faults::Paths }, retransmit_pct: 2, control_pct: 2, critical_windows: false, big_jumps: false, initial_windows: None, loss_permille: 5, stall_min_in_flight_small: false, echo_fuzz: true, rate_pct: 10, short_sends: false };
     let want_sample = rep.wants_sample();
     let desc = format!("{opts:?}");
     let mut m = KeepaliveMon::new(timeout);
